@@ -704,6 +704,9 @@ def refute_msm(binp):
         shapes = [([], []), ([P], [ks[10]]), ([P], [0]), ([None], [ks[10]]), ([P, P], [ks[10], ks[11]]), ([P, ec_neg(F, P)], [ks[10], ks[10]]), ([P, ec_neg(F, P)], [5, 5]),
                   ([P, P, P], [1, 1, 1]), ([P, Qp, S], [ks[3], ks[4], ks[12]]), ([P, Qp, None, S], [ks[5], ks[6], ks[10], ks[7]]), ([P, Qp, S], [ks[10], ks[11]]), ([P, Qp], [ks[8], ks[9], ks[10]]),
                   ([P, Qp, S, P, Qp, S, ec_neg(F, S)], [ks[13], 3, ks[11], ks[1], ks[2], 7, 7]), ([P] * 9, [ks[i] for i in (1, 2, 3, 4, 5, 6, 7, 10, 11)])]
+        # single-term and two-term inputs with scalars in [r, 2^255) (non-canonical representatives a caller may pass as raw limbs): a short-cut for few terms that goes
+        # through Fr::from_repr is only observable here (seed C10-6)
+        shapes += [([P], [R]), ([P], [top]), ([Qp], [R + 5]), ([None], [top]), ([P], [1]), ([P], [R - 1]), ([P, Qp], [R, top]), ([P, Qp], [top, 1 << 254]), ([P, None], [R + 1, 3])]
         ops = ['default', 'precomp'] + [str(w) for w in ((1, 2, 3, 4, 5, 7, 8, 11, 13, 16, 17, 20) if F is F1 else (1, 3, 8, 16, 17))]
         if THOROUGH[0]:
             ops = ['default', 'precomp'] + [str(w) for w in range(1, 21)]
@@ -940,7 +943,7 @@ STANDINS = {
     'batch_normalization': (refute_batch, "CurveProjective::batch_normalization (iterator adaptor chains: outside the Verus subset): every mix and order of identity / normalized / general representatives, up to 5 points"),
     'wnaf_contexts_precomp_3': (refute_scalar_paths, "(cross-check: under contract in units wnaf / precomp) Wnaf context methods with reuse histories and precomp_3 / mul_precomp_3: structured scalars (0, 1, word and chunk boundaries, r-1, r, 2^255-1), both staging orders, table sizes for 1 / 5 / 100000 scalars"),
     'expand_message_hash_to_field': (refute_expand, "(cross-check: under contract in units expand / okm; the abort beyond 255 blocks is only observable here) ExpandMsgXmd / ExpandMsgXof / hash_to_field through the real sha2 / sha3 crates (SHA-256, SHA-512, SHA-384, SHA-224, SHAKE128, SHAKE256) against hashlib: tag lengths 0, 1, 27, 254, 255; output lengths around every block boundary and the 255-block limit (abort expected beyond it); element counts 0..5"),
-    'sum_of_products': (refute_msm, "(also under contract in unit msm; kept as an end-to-end cross-check through the compiled point formulas) sum_of_products / sum_of_products_pippinger (windows 1..20) / sum_of_products_precomp_256: empty input, duplicates, inverse pairs, identity points, zero scalars, mismatched lengths, scalars with bits at word boundaries and 2^255-1"),
+    'sum_of_products': (refute_msm, "(also under contract in unit msm; kept as an end-to-end cross-check through the compiled point formulas) sum_of_products / sum_of_products_pippinger (windows 1..20) / sum_of_products_precomp_256: empty input, duplicates, inverse pairs, identity points, zero scalars, mismatched lengths, scalars with bits at word boundaries and 2^255-1, single-term and two-term inputs with scalars in [r, 2^255)"),
     'serdes_streams': (refute_serdes, "(cross-check: the SerDes functions are under contract in units serdes / serout) serialize / deserialize for Fr, Fq12, G1, G2 and the affine types end to end: bytes written after existing sink content, bytes consumed with 0 / 50 / 9000 trailing bytes, truncation at several lengths, non-reduced blocks"),
     'tower_ops': (refute_tower, "(cross-check: the tower is under contract in unit tower) Fq2 / Fq6 / Fq12 inverse, square, mul_assign and frobenius_map on zero, one, every single-coefficient element, single-block elements and random elements; "
                   "frobenius_map(1) against x^q, every power (0..30, 1000, usize::MAX) against iterated application, no panic"),
